@@ -159,6 +159,12 @@ def rule_predicate(model):
                 a = n.args[0]
                 ok = isinstance(a, ast.Call) and \
                     isinstance(a.func, ast.Name) and a.func.id == 'type'
+                if not ok and isinstance(a, ast.Name):
+                    defs = model.local_defs(fi, a.id)
+                    ok = bool(defs) and all(
+                        isinstance(d, ast.Call) and
+                        isinstance(d.func, ast.Name) and
+                        d.func.id == 'type' for d in defs)
                 r.instance(fi.where, n, 'type' if ok else 'VALUE')
                 if not ok:
                     r.finding(fi.where, n, 'the predicate tests membership '
